@@ -250,11 +250,23 @@ class State:
                         return True
         return False
 
-    def assume_le(self, a, b, strict=False):
+    def assume_le(self, a, b, strict=False, _depth=0):
         """refine with a <= b (a < b)"""
         k = 1 if strict else 0
         if a is None or b is None:
             return
+        if _depth < 2:
+            # a bound on r == A - X against a constant bounds X:  A - X (+off) <= c  =>  X >= A + off - c ;  c <= A - X (+off)  =>  X <= A + off - c
+            def shift(t, n):
+                return ("c", t[1] + n) if t[0] == "c" else ("s", t[1], t[2] + n)
+            if a[0] == "s" and b[0] == "c":
+                ex = self.exprs.get(a[1])
+                if ex and ex[0] == "sub" and ex[2] is not None and ex[2][0] == "s" and ex[1] is not None:
+                    self.assume_le(shift(ex[1], a[2] + k - b[1]), ex[2], False, _depth + 1)
+            if b[0] == "s" and a[0] == "c":
+                ex = self.exprs.get(b[1])
+                if ex and ex[0] == "sub" and ex[2] is not None and ex[2][0] == "s" and ex[1] is not None:
+                    self.assume_le(ex[2], shift(ex[1], b[2] - k - a[1]), False, _depth + 1)
         ia, ib = self.itv_term(a), self.itv_term(b)
         # a <= ib.hi - k ; b >= ia.lo + k
         if a[0] == "s":
@@ -1045,7 +1057,7 @@ class Analyzer:
             v.sym = (sid, 0)
             st.syms[sid] = it
             v.ty = None
-            if ta is not None and tb is not None and tb[0] == "s" and ta[0] == "s":
+            if ta is not None and tb is not None and tb[0] == "s":
                 st.exprs[sid] = ("sub", ta, tb)
             # remember: result + b == a  (result <= a when b >= 0)
             if ta is not None and ta[0] == "s" and ib[0] >= 0:
